@@ -28,6 +28,49 @@ fn case_json(input: &[u8], from: Option<Fmt>, to: Fmt, sched: &Sched, class: &st
     })
 }
 
+/// A reader that is interrupted now and then (ErrorKind::Interrupted, nothing delivered, the next call
+/// proceeds): xt may answer with an error, but if it reports success the output must be the slice's,
+/// and a failing input must still fail.
+pub fn compare_interrupted(input: &[u8], from: Option<Fmt>, to: Fmt, every: u64, class: &str, s: &Outcome, acc: &mut Acc) {
+    // Only with the source format named: a detection trial that meets an I/O error answers "not this
+    // format" (the YAML trial does so for any reader error; a persistent fault then resurfaces in a later
+    // trial, a transient one does not), so an interruption can change the DETECTED format. The properties
+    // speak of short reads and of readers that start failing, not of transient errors during detection.
+    if from.is_none() {
+        return;
+    }
+    let mut out = Vec::new();
+    let rd = crate::mon::SchedReader::new(input, Sched::Fixed(5)).with_interrupts(every);
+    let v = crate::run::guarded(|| xt::translate_reader(rd, from.map(Fmt::xt), to.xt(), &mut out));
+    acc.evals += 1;
+    acc.count(&format!("interrupted_reader_{}", v.class()));
+    // Any error is an allowed answer to an interruption: xt may take it for a failure of whatever it was
+    // doing at that moment (a detection trial answers "not this format", a parser gives up). What may not
+    // happen: success with other output than the slice's, success where the slice fails, a panic.
+    let problem = if v.is_panic() {
+        Some(format!("panic: {}", v.show()))
+    } else if v.is_err() {
+        None
+    } else if s.verdict.is_ok() != v.is_ok() {
+        Some(format!("slice: {} | interrupted reader: {}", s.verdict.show(), v.show()))
+    } else if v.is_ok() && out != s.out {
+        Some(format!("both succeed but the output differs: slice [{}] | interrupted reader [{}]", preview(&s.out, 120), preview(&out, 120)))
+    } else {
+        None
+    };
+    if let Some(observed) = problem {
+        // the recorded slice-vs-reader findings also show against this reader
+        let r = Outcome { verdict: v.clone(), out: out.clone() };
+        if let Some(id) = classify(input, from, to, s, &r) {
+            if known::listed("C02", id) {
+                acc.known(id, || format!("input [{}] from={} to={} interrupted reader", preview(input, 60), fmts::from_name(from), to.name()));
+                return;
+            }
+        }
+        acc.violation(Violation { sig: format!("{}->{} reader interrupted every {every} calls: differs from the slice", fmts::from_name(from), to.name()), case: json!({"input_hex": hex(input), "input_preview": preview(input, 200), "from": fmts::from_name(from), "to": to.name(), "interrupt_every": every, "class": class}), observed, expected: "the slice's verdict and output, or an error".into() });
+    }
+}
+
 /// Classifies a disagreement as one of the recorded known findings, if it has
 /// exactly that finding's signature.
 fn classify(input: &[u8], from: Option<Fmt>, to: Fmt, s: &Outcome, r: &Outcome) -> Option<&'static str> {
@@ -204,6 +247,9 @@ pub fn run(ctx: &Ctx) -> i32 {
                         acc.count(&format!("sched_{}", sc.describe().split(':').next().unwrap()));
                         compare(&item.bytes, from, to, sc, item.class, &s, acc);
                     }
+                    if item.bytes.len() <= 65_536 {
+                        compare_interrupted(&item.bytes, from, to, 2 + rng.below(5) as u64, item.class, &s, acc);
+                    }
                 }
             }
         } else {
@@ -306,6 +352,7 @@ pub fn run(ctx: &Ctx) -> i32 {
                 for sc in [Sched::All, Sched::One, Sched::Fixed(3), Sched::Fixed(7)] {
                     compare(&it.bytes, from, to, &sc, "seed", &s, acc);
                 }
+                compare_interrupted(&it.bytes, from, to, 2 + (i as u64 % 3), "seed", &s, acc);
             }
         }
     });
@@ -321,7 +368,7 @@ pub fn run(ctx: &Ctx) -> i32 {
             ctx,
             level: "exploration",
             rule,
-            assumptions: vec!["error text is not compared here (C09/C11 do that)".into(), "the reader never returns 0 before the end and never more than the buffer".into()],
+            assumptions: vec!["error text is not compared here (C09/C11 do that)".into(), "a reader that fails transiently with ErrorKind::Interrupted may be answered with any error (the properties speak of short reads and of readers that START failing); if xt reports success the output must be the slice's".into(), "the reader never returns 0 before the end and never more than the buffer".into()],
             extra,
             exhaustive: false,
             min_distinct: 1000,
